@@ -303,4 +303,25 @@ MUTANTS = [
                 .set_instantiation_argument(socket_instantiation, &socket_name, export)
                 .map_err(|err| PlugError::GraphError { source: err.into() })?;""",
          new="""            let _ = graph.set_instantiation_argument(socket_instantiation, &socket_name, export);"""),
+
+    # ---------------- C17
+    dict(id="c17-named-args-skipped", prop="C17", expect="R17.1|position|InstantiationArgument::Named.0", file="crates/wac-resolver/src/visitor.rs",
+         old="""                        InstantiationArgument::Named(a) => {
+                            if !self.expr(this, &a.expr)? {
+                                return Ok(false);
+                            }
+                        }""",
+         new="""                        InstantiationArgument::Named(_) => continue,"""),
+    dict(id="c17-include-not-visited", prop="C17", expect="R17.1|position|WorldInclude.world", file="crates/wac-resolver/src/visitor.rs",
+         old="""            WorldItem::Include(i) => match &i.world {
+                WorldRef::Package(p) => (self.0)(p.name, p.version.as_ref(), p.package_name_span()),
+                WorldRef::Ident(_) => true,
+            },""",
+         new="""            WorldItem::Include(_) => true,"""),
+    dict(id="c17-version-dropped", prop="C17", expect="R17.3|callback|world_item", file="crates/wac-resolver/src/visitor.rs",
+         old="""                WorldRef::Package(p) => (self.0)(p.name, p.version.as_ref(), p.package_name_span()),""",
+         new="""                WorldRef::Package(p) => (self.0)(p.name, None, p.package_name_span()),"""),
+    dict(id="c17-nested-ignored", prop="C17", expect="R17.1|position|PrimaryExpr::Nested.0", file="crates/wac-resolver/src/visitor.rs",
+         old="""            PrimaryExpr::Nested(e) => self.expr(this, &e.inner),""",
+         new="""            PrimaryExpr::Nested(_) => Ok(true),"""),
 ]
